@@ -57,12 +57,19 @@ def _make(c, log, rec=True, shuffle=False):
     return est
 
 
-def run_cfg(c):
+def run_cfg(c, prior_ok=False):
     """execute one configuration on the real estimator; returns (events, n_iter_, partial_fit equivalence)"""
     import torch
     log = []
     X, y, sf = _data(c["n"])
     est = _make(c, log)
+    # history: in two thirds of the configurations the SAME estimator object has completed a fit before (cold: warm_start=False,
+    # warm: warm_start=True); the schedule of a fit - steps, slices, callback numbers 1, 2, ..., n_iter_ - does not depend on that
+    prior = [None, "cold", "warm"][(c["n"] + c["bs"] + c["ep"] + c["mi"] + c["stop"] + 3) % 3] if prior_ok else None
+    if prior:
+        est.set_params(warm_start=(prior == "warm"))
+        est.fit(X, y, sensitive_features=sf)
+        del log[:]
     est.fit(X, y, sensitive_features=sf)
     events = []
     n_it = 0
@@ -81,7 +88,7 @@ def run_cfg(c):
         if e["ev"] == "step":
             est2.partial_fit(X[e["lo"]:e["hi"]], y[e["lo"]:e["hi"]], sensitive_features=sf[e["lo"]:e["hi"]])
     same = None
-    if any(e["ev"] == "step" for e in events):
+    if any(e["ev"] == "step" for e in events) and prior != "warm":       # a warm-started fit continues from the earlier model: the slice equivalence is about a fresh one
         p1 = list(est.backendEngine_.predictor_model.parameters()) + list(est.backendEngine_.adversary_model.parameters())
         p2 = list(est2.backendEngine_.predictor_model.parameters()) + list(est2.backendEngine_.adversary_model.parameters())
         same = len(p1) == len(p2) and all(a.shape == b.shape and torch.allclose(a, b, rtol=0, atol=0, equal_nan=True) for a, b in zip(p1, p2))
@@ -93,7 +100,7 @@ def _replay(ob):
     out = []
     detail = {"cfg": c}
     try:
-        events, n_iter, same = run_cfg(c)
+        events, n_iter, same = run_cfg(c, prior_ok=True)
     except Exception as e:
         return [({"api": "fit", "kind": "exception", "exc": type(e).__name__}, f"fit raised {e!r}", detail)]
     exp = []
